@@ -55,7 +55,7 @@ class HarnessError(Exception):
 PROFILES = {
     # weights / switches per check; see DESIGN.md section 4
     "C08": dict(nreq=(1, 2), mutation=(1, 3), variants=False, reps=2,
-                configs="all", boom=(1, 5), overlap=True, l2=(1, 2),
+                configs="all", boom=(1, 3), overlap=True, l2=(1, 2),
                 l2_reps=2),
     "C09": dict(nreq=(1, 1), mutation=(1, 1), force_mutation=True,
                 variants=False, reps=2, configs="all", boom=(0, 1)),
@@ -219,9 +219,13 @@ def _finish_request(draws, spec, req, idx, profile, rs, tier):
                                  root_value=req.root)
         nf = fs.weighted((4, 3, 2, 1, 1, 1), "n_faults")
         kinds = ["err", "null", "errx", "errs"]
-        if profile.get("boom", (0, 1))[0] and fs.chance(
-                *profile["boom"], "boom_on"):
-            kinds.append("boom")
+        boom_on = bool(profile.get("boom", (0, 1))[0]) and fs.chance(
+            *profile["boom"], "boom_on")
+        if boom_on:
+            # an unexpected exception, of one of the classes library code
+            # tends to catch for its own control flow
+            kinds.append("boom%d" % fs.below(7, "boom_class"))
+            nf = max(nf, 1)
         for _ in range(nf):
             if not base.positions:
                 break
@@ -231,6 +235,11 @@ def _finish_request(draws, spec, req, idx, profile, rs, tier):
                 req.faults[path] = "null"
             else:
                 req.faults[path] = kinds[fs.below(len(kinds), "fault_kind")]
+        if boom_on and base.positions and not any(
+                v.startswith("boom") for v in req.faults.values()):
+            cand = [p for p, what in base.positions if what == "field"]
+            if cand:
+                req.faults[cand[fs.below(len(cand), "boom_at")]] = kinds[-1]
         req.exp = expected_response(
             spec, op, World(spec, req.wseed, req.faults,
                             nonfinite=req.nonfinite), root_value=req.root)
@@ -496,7 +505,7 @@ def run_case(draws, prop, tier="quick"):
             if e.crash:
                 res.count("probe:crash_expected")
             for k, v in req.faults.items():
-                res.count("placed:" + v)
+                res.count("placed:" + v[:4])
         res.count("variant:" + req.variant)
         if req.repeat_of is not None:
             res.count("probe:same_document_other_variables")
